@@ -283,6 +283,11 @@ def run(ctx):
     ctx.ob(okb, 'slice helper appends bytes[offset .. offset + min(capacity - len, len(bytes) - offset)]', 'slice-helper|range', loc=bs.loc())
     rets = [show(e) for _, e in prims.ret_variants(bs)]
     ctx.ob(any(r == '0' for r in rets) and any('offset AddWithOverflow Ord::min' in r for r in rets), 'slice helper returns the advanced offset when bytes remain and 0 when done', 'slice-helper|ret', loc=bs.loc())
+    REM_ = r'\(\(slice::len\(\w+\) SubWithOverflow offset\)\)\.0'
+    gr_ = {('adv' if 'offset AddWithOverflow' in show(e_) else show(e_)): prims.guard_strs_plain(bs, b_) for b_, e_ in prims.ret_variants(bs)}
+    okg = len(gr_.get('adv', [])) == 1 and re.match(r'^\(Ord::min\(.*\) < ' + REM_ + r'\)$', gr_['adv'][0]) is not None and \
+        len(gr_.get('0', [])) == 1 and re.match(r'^(\(' + REM_ + r' <= Ord::min\(.*\)\)|!\(Ord::min\(.*\) < ' + REM_ + r'\))$', gr_['0'][0]) is not None
+    ctx.ob(okg, 'slice helper: "bytes remain" means strictly fewer bytes were appended than were left (a step that exactly finished is not re-queued)', 'slice-helper|ret-cond', loc=bs.loc())
     en = ctx.fn('Encoder::encode')
     for cs in en.calls('encode::process_encoding_step'):
         prims.requires(ctx, en, cs.bb, [r'^\(\(\(Vec::len\(dest\) AddWithOverflow 4\)\)\.0 <= Vec::capacity\(dest\)\)$', r'^!VecDeque::is_empty\(self\.steps\)$'], 'encode-loop', 'processing a step', loc=cs.loc())
@@ -307,6 +312,7 @@ def run(ctx):
     # ---------------------------------------------------------------- R-C02-8/9 length arithmetic
     from . import c02_len
     c02_len.run(ctx, w5, w3)
+    c02_len.run_short_forms(ctx, w5)
     from . import c02_layout
     c02_layout.run(ctx, w5, w3)
     # (added after seeds C02-3a / C02-3b) facts C02 shares with C07 and C16
@@ -335,6 +341,21 @@ def run(ctx):
     rmax = prims.rets_after(evv, [r'^\(MAXIMUM_VARIABLE_LENGTH_INTEGER as u32 < value\)$'])
     ctx.ob(rmax == {'Err'}, 'encode_vli refuses values above 268435455 (%s)' % sorted(rmax or ['test not found']), 'vbi|encode|max', loc=evv.loc(), rule='R-C02-1')
 
+    # ---- added after the mutation sweep: size thresholds and loop termination
+    cvs = ctx.fn('encode::compute_variable_length_integer_encode_size')
+    rows_ = {show(e_): prims.guard_strs_plain(cvs, b_) for b_, e_ in prims.ret_variants(cvs) if e_[0] == 'agg' and e_[2] == 'Ok'}
+    def _thr(g):
+        m_ = re.match(r'^\(value < (?:\(1 Shl (\d+)\)|(\d+))\)$', g)
+        return None if not m_ else (1 << int(m_.group(1))) if m_.group(1) else int(m_.group(2))
+    got_ = {k: _thr(g[-1]) if g else None for k, g in rows_.items()}
+    ctx.ob(got_ == {'Result::Ok{0: 1}': 128, 'Result::Ok{0: 2}': 16384, 'Result::Ok{0: 3}': 2097152, 'Result::Ok{0: 4}': 268435456},
+           'a variable byte integer needs k bytes exactly for values below 128^k (1.5.5): %s' % got_, 'vbi|size|thresholds', loc=cvs.loc(), rule='R-C02-1')
+    dn = [(b_, show(e_)) for b_, e_ in var_inits(evv, 'done')]
+    okr = [b_ for b_, e_ in prims.ret_variants(evv) if e_[0] == 'agg' and e_[2] == 'Ok']
+    pu_ = [c_ for c_ in evv.calls('Vec::push', 'push') if show(c_.arg(0)) == 'dest']
+    ok_ = sorted(x for b_, x in dn) == ['(val Eq 0)', 'False'] and len(okr) == 1 and 'done' in prims.guard_strs_plain(evv, okr[0]) and len(pu_) == 1 and \
+        not any(g in ('done', '!done') for g in prims.guard_strs_plain(evv, pu_[0].bb)[:0]) and any(b_ in evv.reach(list(evv.graph()[0][pu_[0].bb])) for b_, x in dn if x == '(val Eq 0)')
+    ctx.ob(ok_, 'encode_vli emits at least one byte and stops exactly when the remaining value is 0 (loop flag: %s)' % [x for b_, x in dn], 'vbi|encode|termination', loc=evv.loc(), rule='R-C02-1')
     ee = ctx.fn('Encoder::encode')
     rc_ = prims.rets_after(ee, [r'^VecDeque::is_empty\(self\.steps\)$'])
     rf_ = prims.rets_after(ee, [r'^!VecDeque::is_empty\(self\.steps\)$'])
@@ -372,6 +393,11 @@ def run(ctx):
         samekey = len(plain) == 1 and len(rel) == 1 and (plain[0].group('k') or plain[0].group('k2')) == (rel[0][1].group('k') or rel[0][1].group('k2'))
         ctx.ob(len(inits) == 2 and samekey and prims.guarded_any(sq, rel[0][0], [r'\.qos2_pubrel is Some$']),
                'that packet is the operation\'s own packet, replaced by its PUBREL exactly when the PUBREL slot is set (%s)' % [x[:70] for b, x in inits], 'prepared|packet-choice', loc=sq.loc())
+    # ---- added after the mutation sweep: the configured values this property starts from reach the options (builder setters)
+    from . import shared as _sh
+    _ns = _sh.builder_setters(ctx, lambda b, m: b.endswith('PacketBuilder') or b == 'SubscriptionBuilder' or (b == 'MqttClientOptionsBuilder' and m == 'with_protocol_mode'), 'R-C02-5', 'the packet content the application supplied is what the packet structs hold; the protocol version is the configured one')
+    if ctx.config == 'all':
+        ctx.floor(_ns, 21, 'builder setters this property depends on')
 
 
 def fields_read(ctx, view, depth=1, root='packet', _seen=None):
